@@ -21,7 +21,7 @@ import numpy as np  # noqa: E402
 import catalogue  # noqa: E402
 
 
-class Timeout(Exception):
+class Timeout(BaseException):   # BaseException: not swallowed by the `except Exception` of ageing / probes
     pass
 
 
@@ -191,7 +191,16 @@ def run_task(t, mode):
         import random
         arng = random.Random(hash_task(t))
         if arng.random() < 0.5:
-            aged = catalogue.age(W.flw, arng, focus=(t["op"],), loopfree=not t["world"].get("loops", False))
+            # the earlier queries run under the same per-call budget: a query that does not return must not stall the
+            # worker (it is then simply not counted as history; the operation under test runs on the object as it is)
+            signal.signal(signal.SIGALRM, _alarm)
+            signal.alarm(int(t.get("timeout", 30)))
+            try:
+                aged = catalogue.age(W.flw, arng, focus=(t["op"],), loopfree=not t["world"].get("loops", False))
+            except Timeout:
+                aged = [("<an earlier query did not return within the budget>", {})]
+            finally:
+                signal.alarm(0)
             VIOL.clear()
             API_MUT.clear()
             del made[:]
@@ -224,7 +233,13 @@ def run_task(t, mode):
             out["cache_mutated"] = sorted(k for k, (v, c) in cached_before.items()
                                           if not (np.array_equal(v, c) or (v.dtype.kind == "f" and np.array_equal(v, c, equal_nan=True))))
         if out.get("status") == "ok" and opd["group"] not in ("kernel",) and t.get("age", True):
-            out["state_diverged"] = twin_diff(W)
+            signal.alarm(int(t.get("timeout", 30)))
+            try:
+                out["state_diverged"] = twin_diff(W)
+            except Timeout:
+                out["state_diverged"] = ["a probe query did not return within the budget"]
+            finally:
+                signal.alarm(0)
         out["aged"] = [a[0] for a in aged]
     return out
 
